@@ -14,14 +14,16 @@ def run(chk):
                     28 if quick else 70, 120 if quick else 400, 4 if quick else 8)
     # direction A: every stream of length n+3 over {-1,-0,+0,1} (quick) / n+3 over 5 tokens, n <= 4 (thorough)
     if quick:
-        jobs = [dict(subjects=[s], pmax=255, inits="ZeroOnly", lens="L1to3", ranks="R3z", negzero=True, depth=6,
-                     first=False) for s in SEL]
+        jobs = [dict(subjects=[s], pmax=255, inits="ZeroBoth", lens="L1to3", ranks="R3z", negzero=True, depth=5,
+                     first=False) for s in SEL]                  # construction value +0.0 and -0.0
         # the median of an even window is an arithmetic mean: more (asymmetric) ranks so that its rounding shows
         jobs.append(dict(subjects=["SMM"], pmax=255, inits="ZeroOne", lens="L1to4", ranks="R4", negzero=False, depth=5,
                          first=False, suffix="wide"))
     else:
         jobs = [dict(subjects=[s], pmax=255, inits="ZeroOne", lens="L1to4", ranks="R4", negzero=True, depth=7,
                      first=False) for s in SEL]
+        jobs += [dict(subjects=[s], pmax=255, inits="ZeroBoth", lens="L1to3", ranks="R3z", negzero=True, depth=6,
+                      first=False, suffix="negzero-init") for s in SEL]
     fa = background(tokfam.emit_replay, chk, yv, "c04", jobs, 6)
     # model checking: implementation-shaped machines == definitions on EVERY stream over the alphabet
     if quick:
